@@ -126,7 +126,9 @@ fn is_tchar(b: u8) -> bool {
 /// where the request ends (CWE-444).
 ///
 /// - field names are tokens (RFC 9110 §5.1); kawa lets `"`, `/` and the
-///   empty name through.
+///   empty name through;
+/// - `Content-Length` is `1*DIGIT` (RFC 9110 §8.6); kawa parses it with
+///   `usize::from_str`, which accepts a leading `+`.
 fn h1_request_head_error(request: &GenericHttpStream) -> Option<&'static str> {
     let buf = request.storage.buffer();
     for block in &request.blocks {
@@ -139,6 +141,12 @@ fn h1_request_head_error(request: &GenericHttpStream) -> Option<&'static str> {
         let key = header.key.data(buf);
         if key.is_empty() || !key.iter().all(|&b| is_tchar(b)) {
             return Some("Invalid field name");
+        }
+        if compare_no_case(key, b"content-length") {
+            let val = header.val.data(buf);
+            if val.is_empty() || !val.iter().all(u8::is_ascii_digit) {
+                return Some("Invalid Content-Length field value");
+            }
         }
     }
     None
